@@ -40,7 +40,8 @@ def split_cases(lines):
 
 
 def run_shard(args):
-    exe, judge, case_lines, workdir, idx, timeout, judge_args, stdin_mode = args
+    exe, judge, case_lines, workdir, idx, timeout, judge_args, stdin_mode = args[:8]
+    extra_env = args[8] if len(args) > 8 else {}
     inp = os.path.join(workdir, 'in%d.txt' % idx)
     obs = os.path.join(workdir, 'obs%d.txt' % idx)
     ver = os.path.join(workdir, 'ver%d.txt' % idx)
@@ -48,6 +49,7 @@ def run_shard(args):
         for c in case_lines:
             f.write('\n'.join(c) + '\n')
     env = dict(os.environ, ASAN_OPTIONS='detect_leaks=0:abort_on_error=0:allocator_may_return_null=1:max_malloc_fill_size=4194304:malloc_fill_byte=190', UBSAN_OPTIONS='print_stacktrace=1')
+    env.update(extra_env)
     with open(obs, 'w') as fo:
         if stdin_mode:
             with open(inp) as fi:
@@ -68,6 +70,7 @@ def run_shard(args):
 def run_cases(cases, flavour='c', timeout=20, judge_args=None, keep_obs=True, harness_exe=None, kind='yaep'):
     """cases: list of lists of lines.  Returns Result."""
     t0 = time.time()
+    extra_env = {}
     judge = build.build_lean()
     if kind == 'containers':
         exe = harness_exe or build.build_containers(flavour)
@@ -76,6 +79,10 @@ def run_cases(cases, flavour='c', timeout=20, judge_args=None, keep_obs=True, ha
         # `<flavour>-plain`: the same harness without sanitizers (gcc -O1): a read of uninitialised
         # stack memory keeps the pattern the harness fills the stack with (the frame layout of an
         # ASan build hides it)
+        # `<flavour>-weak`: the same harness, every hash value reduced to its two lowest bits (hook
+        # yaep_verif_hash_mask): all elements of a table collide, the equality functions decide alone
+        if flavour.endswith('-weak'):
+            extra_env = {'YH_HASH_MASK': '3'}; flavour = flavour[:-5]
         exe = harness_exe or (build.build_harness(flavour[:-6], sanitize=False) if flavour.endswith('-plain') else
                               build.build_harness(flavour[:-3], rename_default_alloc=True) if flavour.endswith('-fi') else build.build_harness(flavour))
     res = Result()
@@ -83,7 +90,7 @@ def run_cases(cases, flavour='c', timeout=20, judge_args=None, keep_obs=True, ha
     try:
         nsh = max(1, min(JOBS, len(cases)))
         shards = [cases[i::nsh] for i in range(nsh)]
-        jobs = [(exe, judge, sh, workdir, i, timeout, judge_args or [], kind == 'containers') for i, sh in enumerate(shards)]
+        jobs = [(exe, judge, sh, workdir, i, timeout, judge_args or [], kind == 'containers', extra_env) for i, sh in enumerate(shards)]
         with ThreadPoolExecutor(nsh) as ex:
             outs = list(ex.map(run_shard, jobs))
         for c in cases:
